@@ -431,6 +431,7 @@ func (r *SqlManager) AddVerificationMethod(ctx context.Context, subject string, 
 // transactionHelper is a helper function that starts a transaction, performs an operation, and emits an event.
 func (r *SqlManager) transactionHelper(ctx context.Context, operation func(tx *gorm.DB) (map[string]orm.DIDChangeLog, error)) error {
 	var changes map[string]orm.DIDChangeLog
+	verifhook.Point("didsubject.tx1.before")
 	if err := r.DB.Transaction(func(tx *gorm.DB) error {
 		var operationErr error
 		// Perform the operation within the transaction.
